@@ -282,6 +282,9 @@ loop:
 	case Shutdown:
 		return errorx.ErrEngineShutdown
 	}
+	if !c.opened { // the connection was closed inside OnTraffic, its fd must not be touched anymore
+		return nil
+	}
 	_, _ = c.inboundBuffer.Write(c.buffer)
 	c.buffer = c.buffer[:0]
 
